@@ -32,6 +32,8 @@ meta = {'property': pid, 'needs': needs, 'confirmed': bool(confirmed),
                 'demo_patched_exit': rc1, 'demo_patched_output': o1.strip()[-600:]}}
 check = None
 if confirmed:
+    import fcntl
+    _lock = open('/tmp/seed_eval.lock', 'w'); fcntl.flock(_lock, fcntl.LOCK_EX)   # /repo is patched: one evaluation at a time
     rcA, oA = sh('git -C /repo apply %s' % os.path.join(out, 'patch.diff'))
     try:
         if rcA == 0:
